@@ -506,7 +506,7 @@ def offgrid_global_cases(rng, n):
 def run(ctx, V):
     rng = common.rng_for(ctx["seed"], "C09")
     tier = ctx["tier"]
-    n_layouts = 34 if tier == "quick" else 150
+    n_layouts = 30 if tier == "quick" else 120
     runs = []
     for _ in range(n_layouts):
         layout = gen_layout(rng, tier)
